@@ -18,16 +18,16 @@ Qed.
 
 (* C06: whatever the xargs limiter chain lets through (within_limits' system clause), the kernel
    accepts - provided sysconf(ARG_MAX) is the kernel's own limit, the environment strings and the
-   command-line arguments are each within the per-string bound, and the program's file name (with what a #! line adds)
-   fits in PATH_MAX plus the headroom *)
-Theorem xargs_batch_accepted c b rl env fn :
+   command-line arguments are each within the per-string bound, and the program's file name fits in PATH_MAX and what a #! line adds (the name
+   once more, an interpreter line of at most 256 bytes) in PATH_MAX + 256 *)
+Theorem xargs_batch_accepted c b rl env fn sb :
   within_limits c b -> c_sys c = sys_budget (kernel_limit rl) env -> c_init c <> [] ->
   Forall (fun len => len + 1 <= MAX_ARG_STRLEN) (env_strings env) ->
   Forall (fun len => len + 1 <= MAX_ARG_STRLEN) (c_init c) ->
-  fn + 1 <= 4096 + 2048 ->
-  kernel_accepts rl {| argv := c_init c ++ map alen b; envp := env_strings env; fname := fn |}.
+  fn + 1 <= 4096 -> sb <= 4096 + 256 ->
+  kernel_accepts rl {| argv := c_init c ++ map alen b; envp := env_strings env; fname := fn; shebang := sb |}.
 Proof.
-  intros (_ & _ & _ & Hsys & Hsingle) Hb Hne He Hi Hf. split; cbn [argv envp fname].
+  intros (_ & _ & _ & Hsys & Hsingle) Hb Hne He Hi Hf Hsb. split; cbn [argv envp fname shebang].
   - apply Forall_app. split; [|exact He]. apply Forall_app. split; [exact Hi|].
     apply Forall_map. eapply Forall_impl; [|exact Hsingle]. intros a Ha. unfold cost, max_single_arg in Ha. unfold MAX_ARG_STRLEN. lia.
   - rewrite Hb in Hsys. unfold sys_budget in Hsys. rewrite isum8, total8, env_size_spec in Hsys.
@@ -41,13 +41,13 @@ Qed.
 Lemma fold8 lens : fold_right (fun l s => l + 1 + 8 + s) 0 lens = strings lens + 8 * N.of_nat (length lens).
 Proof. unfold strings. induction lens as [|l lens IH]; cbn [fold_right length]; [reflexivity|]. rewrite IH. lia. Qed.
 
-Theorem substituted_accepted c lens rl env fn :
+Theorem substituted_accepted c lens rl env fn sb :
   fits_system c lens = true -> c_sys c = sys_budget (kernel_limit rl) env -> lens <> [] ->
   Forall (fun len => len + 1 <= MAX_ARG_STRLEN) (env_strings env) ->
-  fn + 1 <= 4096 + 2048 ->
-  kernel_accepts rl {| argv := lens; envp := env_strings env; fname := fn |}.
+  fn + 1 <= 4096 -> sb <= 4096 + 256 ->
+  kernel_accepts rl {| argv := lens; envp := env_strings env; fname := fn; shebang := sb |}.
 Proof.
-  unfold fits_system. intros H Hb Hne He Hf. apply andb_prop in H as [H1 H2]. split; cbn [argv envp fname].
+  unfold fits_system. intros H Hb Hne He Hf Hsb. apply andb_prop in H as [_ H]. apply andb_prop in H as [H1 H2]. split; cbn [argv envp fname shebang].
   - apply Forall_app. split; [|exact He]. apply Forall_forall. intros l Hl.
     rewrite forallb_forall in H1. specialize (H1 l Hl). apply N.leb_le in H1. unfold max_single_arg in H1. unfold MAX_ARG_STRLEN. lia.
   - apply N.leb_le in H2. rewrite Hb, fold8 in H2. unfold sys_budget in H2. rewrite env_size_spec in H2.
@@ -73,15 +73,15 @@ Proof.
   rewrite IH. lia.
 Qed.
 
-Theorem argmax_batch_accepted rl env prog fixed batch fn :
+Theorem argmax_batch_accepted rl env prog fixed batch fn sb :
   argmax_args batch <= argmax_budget (kernel_limit rl) env prog fixed ->
   0 < argmax_budget (kernel_limit rl) env prog fixed \/ batch <> [] ->
   Forall (fun len => len <= argmax_single) (prog :: fixed ++ batch) ->
   Forall (fun len => len + 1 <= MAX_ARG_STRLEN) (env_strings env) ->
-  fn + 1 <= 4096 + 2048 ->
-  kernel_accepts rl {| argv := prog :: fixed ++ batch; envp := env_strings env; fname := fn |}.
+  fn + 1 + sb <= 4096 + 2048 ->
+  kernel_accepts rl {| argv := prog :: fixed ++ batch; envp := env_strings env; fname := fn; shebang := sb |}.
 Proof.
-  intros Hb Hpos Hs He Hf. split; cbn [argv envp fname].
+  intros Hb Hpos Hs He Hf. split; cbn [argv envp fname shebang].
   - apply Forall_app. split; [|exact He]. eapply Forall_impl; [|exact Hs]. intros l Hl. unfold argmax_single in Hl. unfold MAX_ARG_STRLEN. lia.
   - unfold argmax_budget in *. rewrite !argmax_args_spec in *. rewrite argmax_env_spec in *. unfold argmax_arg in *.
     cbn [strings fold_right length]. fold (strings (fixed ++ batch)). rewrite strings_app, app_length.
@@ -126,7 +126,7 @@ Theorem oversize_status c tmpl a outs :
 Proof.
   intros Ht Hr Ha. unfold xargs_run. rewrite Ht.
   assert (Hshape : exists pre cur sys, tmpl = pre ++ [LChars cur sys 8 max_single_arg]).
-  { apply charge_init_spec in Ht. subst tmpl. unfold limiters0.
+  { apply charge_init_spec in Ht. subst tmpl. unfold limiters0. rewrite Hr.
     destruct (c_n c), (c_L c), (c_s c); cbn [app map advi];
       match goal with |- exists pre cur sys, ?l = _ =>
         exists (removelast l); eexists; eexists; cbn [removelast]; reflexivity end. }
